@@ -48,6 +48,13 @@ Theorem C09_union_denotes : forall els, Forall wfp els ->
 Proof. exact union_denotes. Qed.
 Print Assumptions C09_union_denotes.
 
+(* -- canonical form: the result of _range_union is sorted and consecutive
+      elements are separated by a gap of at least one integer
+      (snd a = EV x, fst b = EV y, x + 1 < y) -- *)
+Theorem C09_canonical_sorted_disjoint : forall els, Forall wfp els -> chain_gap (range_union els).
+Proof. exact canonical_sorted_disjoint. Qed.
+Print Assumptions C09_canonical_sorted_disjoint.
+
 (* -- _range_canonicalize keeps the set -- *)
 Theorem C09_canonicalize_denotes : forall r, wfr r ->
   (forall z, den (range_canonicalize r) z <-> den r z) /\ wfr (range_canonicalize r).
